@@ -299,35 +299,68 @@ def check_case(ctx, specs, opts, read, adapters=None):
                         candidates=[mkey(c[3]) for c in cands], chosen=mkey(got)))
 
 
-def cli_case(ctx, k):
-    """Command-line cross-check: {adapter_name} of the last round and the trimmed read equal the reference rounds."""
-    from cutadapt.parser import make_adapters_from_specifications
+def render_spec(rng, sp):
+    """Command-line spelling of a structured adapter description (documented notation). Returns [flag, text]."""
+    def params(anchored):
+        p = [f"e={sp['max_errors']}"]
+        if not anchored:
+            p.append(f"o={sp['min_overlap']}")
+        p.append("indels" if sp["indels"] else "noindels")
+        return p
 
+    t = sp["type"]
+    name = sp["name"] + "="
+    if t == "linked":
+        flag = rng.choice(["-a", "-g"])
+        def_f, def_b = (True, True) if flag == "-g" else (sp["front_anchored"], sp["back_anchored"])
+        fp, bp = params(sp["front_anchored"]), params(sp["back_anchored"])
+        if sp["front_required"] != def_f or rng.random() < 0.3:
+            fp.append("required" if sp["front_required"] else "optional")
+        if sp["back_required"] != def_b or rng.random() < 0.3:
+            bp.append("required" if sp["back_required"] else "optional")
+        front = ("^" if sp["front_anchored"] else "") + sp["seq"] + ";" + ";".join(fp)
+        back = sp["seq2"] + ("$" if sp["back_anchored"] else "") + ";" + ";".join(bp)
+        return [flag, name + front + "..." + back]
+    text = dict(back="{s}", front="{s}", anywhere="{s}", prefix="^{s}", suffix="{s}$", nfront="X{s}", nback="{s}X", rightmost="{s}")[t].format(s=sp["seq"])
+    p = params(t in ("prefix", "suffix"))
+    if t == "rightmost":
+        p.append("rightmost")
+    flag = dict(back="-a", front="-g", anywhere="-b", prefix="-g", suffix="-a", nfront="-g", nback="-a", rightmost="-g")[t]
+    return [flag, name + text + ";" + ";".join(p)]
+
+
+def cli_case(ctx, k):
+    """Command-line cross-check: the adapters are written in the documented notation (including ;required/;optional on
+    linked parts), the reference objects are built directly from the structured description (not by the parser), and
+    {adapter_name} of the last round and the trimmed read must equal the reference rounds."""
     rng = ctx.rng("c09cli", k)
-    ads = [G.gen_adapter(rng, i, kinds=["a", "g", "b", "a$", "g^", "aX", "gX", "linked", "rightmost"]) for i in range(rng.randint(2, 4))]
+    specs = gen_specs(rng)
+    names = set()
+    specs = [sp for sp in specs if not (sp["name"] in names or names.add(sp["name"]))]
     times = rng.choice([1, 2, 3])
-    e, O = rng.choice(["0.1", "0.2"]), str(rng.choice([2, 3]))
-    recs, _ = G.gen_reads(rng, rng.randint(10, 30), False, ads, maxlen=40)
+    recs = []
+    for i in range(rng.randint(10, 30)):
+        s_ = gen_read(rng, specs)
+        recs.append((f"r{i}", s_, "I" * len(s_)))
     d = os.path.join(ctx.scratch, f"cli{k}")
     os.makedirs(d, exist_ok=True)
     try:
+        adapters = build(specs)
         inputs = climon.write_inputs(d, recs)
-        argv = [x for a in ads for x in a["argv"]] + ["-n", str(times), "-e", e, "-O", O, "--no-index", "--rename", "{id} {adapter_name}",
-                                                      "-o", "out.fq"] + inputs
+        adargs = [x for sp in specs for x in render_spec(rng, sp)]
+        argv = adargs + ["-n", str(times), "-e", "0.1", "-O", "3", "--no-index", "--rename", "{id} {adapter_name}", "-o", "out.fq"] + inputs
         run = climon.run(d, argv, trace=False)
         case = climon.case_record(argv, d, inputs)
         case["cli_k"] = k
         ctx.count("cli_runs")
         if run.rc != 0:
             ctx.count("cli_runs_failed")
+            ctx.extra.setdefault("cli_failed_example", (argv, run.err[-300:]))
             return
         fo = run.records("out.fq")
         if fo is None or fo[0] == "error":
             ctx.violation("cli-output", f"output missing/unparseable: {fo}", case)
             return
-        adapters = make_adapters_from_specifications(
-            [({"-a": "back", "-g": "front", "-b": "anywhere"}[a["flag"]], f"{a['name']}={a['spec']}") for a in ads],
-            dict(max_errors=float(e), min_overlap=int(O), read_wildcards=False, adapter_wildcards=True, indels=True))
         outs = {fastx.rid(r[0]): r for r in fo[1]}
         for name, s, q in recs:
             start, end = 0, len(s)
@@ -340,13 +373,16 @@ def cli_case(ctx, k):
                 start, end = ref_trimmed_interval(m, start, end)
             o = outs.get(fastx.rid(name))
             ctx.case(("cli", str(argv[:-3]), s) if last is not None else None)
+            if any(sp["type"] == "linked" for sp in specs):
+                ctx.count("cli_reads_with_linked_adapters")
             if o is None:
                 ctx.violation("cli-missing-read", f"read {name} not written", case)
                 continue
             exp_name = last.adapter.name if last is not None else "no_adapter"
             got_name = o[0].split(" ", 1)[1] if " " in o[0] else ""
             if got_name != exp_name or o[1] != s[start:end]:
-                ctx.violation("cli-rounds", f"read {name}: got name {got_name!r} seq {o[1]!r}, reference {exp_name!r} {s[start:end]!r}; argv={argv}", case)
+                ctx.violation("cli-rounds", f"read {name} {s!r}: got name {got_name!r} seq {o[1]!r}, reference {exp_name!r} {s[start:end]!r}; argv={argv}", case,
+                              klass="linked" if any(sp["type"] == "linked" for sp in specs) else "plain")
     finally:
         shutil.rmtree(d, ignore_errors=True)
 
@@ -378,7 +414,7 @@ def run_shard(ctx):
             except Exception as e:
                 ctx.case(("exc", str(specs), read))
                 ctx.violation("exception", f"{type(e).__name__}: {e}; read={read!r} opts={opts} specs={specs}", dict(specs=specs, opts=opts, read=read))
-    for k in range(ctx.scale(6, 120)):
+    for k in range(ctx.scale(12, 200)):
         cli_case(ctx, ctx.shard * 100000 + k)
 
 
